@@ -39,6 +39,7 @@ type plScenario struct {
 	LazyRecv    bool // some unbuffered channels get their receiver only after a delay (graceful stops only)
 	Flushers    int
 	Pattern     []string // scripted done-channel shape of the first batches: "lazy" (unbuffered, late receiver) | "unbuf" | "buf"
+	BadCodec    bool     // a configuration that passes validation but whose compression writer cannot be created (zstd level 5-22): the actor refuses every batch with rows
 }
 
 type plRun struct {
@@ -75,6 +76,10 @@ func runPlScenario(r Rng, sc plScenario) *plRun {
 		cfg.MaxBufferedTime = 20 * time.Millisecond // time-triggered flushes too
 	}
 	cfg.RowDataCompression = bs.CompressionNone
+	if sc.BadCodec {
+		cfg.RowDataCompression = bs.CompressionZstd
+		cfg.ZstdCompressionLevel = 5 + r.IntN(18)
+	}
 	store := NewMemStore()
 	run.store = store
 	var g *gate
@@ -151,6 +156,10 @@ func runPlScenario(r Rng, sc plScenario) *plRun {
 				b.kind, b.nrows, b.chanCap, b.lazy = "bad", 1, 0, 40*time.Millisecond
 			}
 		}
+		if sc.BadCodec && b.kind == "rows" {
+			// well-formed rows the actor cannot buffer: refused like a batch with an unmarshalable row
+			b.kind, b.codec = "bad", true
+		}
 		b.ch = make(chan error, b.chanCap)
 		b.addr = bs.VerifChanID(b.ch)
 		if b.kind == "bad" {
@@ -164,7 +173,7 @@ func runPlScenario(r Rng, sc plScenario) *plRun {
 		for i := 0; i < b.nrows; i++ {
 			rows = append(rows, map[string]any{"_id": b.id*100 + i, "v": "x"})
 		}
-		if b.kind == "bad" {
+		if b.kind == "bad" && !b.codec {
 			rows[len(rows)-1] = badRow()
 			if b.id%3 == 0 {
 				rows[len(rows)-1] = nil // a nil row is refused like an unmarshalable one
@@ -323,6 +332,9 @@ func genPlScenario(r Rng, which string) plScenario {
 	if which == "C07" && sc.Stop != "deadline" && r.Chance(0.5) {
 		sc.LazyRecv = true
 		sc.Unbuffered = 0.4
+	}
+	if r.Chance(0.08) {
+		sc.BadCodec = true
 	}
 	sc.Name = fmt.Sprintf("%s/%s/cap%d/rows%d/p%dx%d/f%d/pre%d", sc.Stop, sc.Store, sc.IngestCap, sc.MaxRows, sc.Producers, sc.PerProducer, sc.Flushers, sc.BeforeStart)
 	return sc
@@ -522,6 +534,8 @@ func runPipeline(c *ctx, which string) {
 		{Name: "lazy-self-answered-at-stop-2", IngestCap: 6, MaxRows: 50, Producers: 1, PerProducer: 3, Start: "normal", Store: "fast", Stop: "graceful", Pattern: []string{"lazy-bad", "buf", "lazy-empty"}},
 		{Name: "abandoned-first-waiter-deadline", IngestCap: 6, MaxRows: 3, Producers: 1, PerProducer: 3, Start: "normal", Store: "stall", Stop: "deadline", Abandoned: true, Pattern: []string{"abandon", "buf", "buf"}},
 		{Name: "abandoned-middle-waiter-deadline", IngestCap: 6, MaxRows: 4, Producers: 1, PerProducer: 4, Start: "normal", Store: "stall", Stop: "deadline", Abandoned: true, Pattern: []string{"buf", "abandon", "unbuf", "buf"}},
+		{Name: "unusable-codec", IngestCap: 4, MaxRows: 2, Producers: 1, PerProducer: 5, Start: "normal", Store: "fast", Stop: "graceful", Flushers: 2, BadCodec: true},
+		{Name: "unusable-codec-lazy", IngestCap: 4, MaxRows: 50, Producers: 2, PerProducer: 3, Start: "normal", Store: "fast", Stop: "graceful", Flushers: 1, BadCodec: true, Unbuffered: 0.5, LazyRecv: true},
 		{Name: "before-start", IngestCap: 3, MaxRows: 2, Producers: 2, PerProducer: 3, BeforeStart: 3, Start: "normal", Store: "fast", Stop: "graceful"},
 		{Name: "late-afterfunc", IngestCap: 4, MaxRows: 1, Producers: 1, PerProducer: 4, Start: "normal", Store: "stall", Stop: "deadline-late-afterfunc"},
 		{Name: "deadline-wedged", IngestCap: 2, MaxRows: 1, Producers: 2, PerProducer: 4, Start: "normal", Store: "stall", Stop: "deadline", Unbuffered: 0.4, Abandoned: true},
@@ -551,6 +565,9 @@ func runPipeline(c *ctx, which string) {
 			trickleAgainstStalledStore(c, r, i)
 		}
 		unreadAcksBackpressure(c)
+		for i := 0; i < 8*c.scale; i++ {
+			floodWithOneTightLimit(c, r, i)
+		}
 	}
 	n := 60 * c.scale
 	for i := 0; i < n; i++ {
@@ -992,6 +1009,72 @@ func trickleAgainstStalledStore(c *ctx, r Rng, i int) {
 // acknowledgement is part of the pipeline: with nobody receiving, the flush worker waits, the actor's hand-off
 // waits behind it, the ingest buffer fills and IngestRows stops accepting - the number of accepted, unanswered
 // batches stays within IngestBufferSize + 4*MaxBufferedRows however many are offered.
+// floodWithOneTightLimit (C09): exactly one of the four flush limits is tight (the others are out of reach), with
+// and without a partition function; the store stalls in CreateFile and a producer floods one-row batches. Whatever
+// limit starts the flushes, the accepted-but-unanswered batches stay within IngestBufferSize + four flushes' worth.
+func floodWithOneTightLimit(c *ctx, r Rng, i int) {
+	variant := []string{"MaxRowGroupRows", "MaxRowGroupBytes", "MaxBufferedRows", "MaxBufferedBytes"}[i%4]
+	partitioned := (i/4)%2 == 1
+	cfg := bs.DefaultBloomSearchEngineConfig()
+	cfg.IngestBufferSize = 1 + r.IntN(4)
+	cfg.MaxBufferedTime = time.Hour
+	cfg.MaxBufferedRows, cfg.MaxBufferedBytes, cfg.MaxRowGroupRows, cfg.MaxRowGroupBytes = 1<<20, 1<<30, 1<<20, 1<<30
+	k := 2 + r.IntN(2) // batches per flush
+	rowSize := len(`{"_id":100}`) + 4
+	switch variant {
+	case "MaxRowGroupRows":
+		cfg.MaxRowGroupRows = k
+	case "MaxRowGroupBytes":
+		cfg.MaxRowGroupBytes = k*rowSize - 2
+	case "MaxBufferedRows":
+		cfg.MaxBufferedRows = k
+	case "MaxBufferedBytes":
+		cfg.MaxBufferedBytes = k*rowSize - 2
+	}
+	if partitioned {
+		cfg.PartitionFunc = func(map[string]any) string { return "p" }
+	}
+	store := NewMemStore()
+	g := newGate(func(op, file string) bool { return op == "create" })
+	store.Gate = g.hook
+	eng, err := bs.NewBloomSearchEngine(cfg, &FaultMeta{MetaStore: bs.NewMemoryMetaStore(), s: store}, store)
+	if err != nil {
+		fatal("engine: %v", err)
+	}
+	eng.Start()
+	bound := cfg.IngestBufferSize + 4*k
+	n := 3*bound + 10
+	accepted := 0
+	var dones []chan error
+	for j := 0; j < n; j++ {
+		done := make(chan error, 1)
+		ctx, cancel := context.WithTimeout(context.Background(), 25*time.Millisecond)
+		if eng.IngestRows(ctx, []map[string]any{{"_id": 100 + j%800}}, done) == nil {
+			accepted++
+			dones = append(dones, done)
+		}
+		cancel()
+	}
+	answered := 0
+	for _, d := range dones {
+		select {
+		case <-d:
+			answered++
+		default:
+		}
+	}
+	c.r.Case(true, fmt.Sprint("flood-one-limit", variant, partitioned, cfg.IngestBufferSize, k))
+	c.r.Hit("pipeline.flood-one-limit." + variant + "." + b2s(partitioned))
+	if accepted-answered > bound {
+		c.r.Add(Finding{Kind: "violation", Check: "backlog-bound", Detail: fmt.Sprintf("with %s the only reachable flush limit (%d one-row batches per flush, partition function: %v) and the store stalled, %d of %d batches were accepted and %d are unanswered; bound IngestBufferSize + 4 flushes = %d", variant, k, partitioned, accepted, n, accepted-answered, bound),
+			Replay: map[string]any{"tight_limit": variant, "batches_per_flush": k, "partitioned": partitioned, "IngestBufferSize": cfg.IngestBufferSize}})
+	}
+	g.release()
+	sctx, cancel := context.WithTimeout(context.Background(), 10*time.Second)
+	eng.Stop(sctx)
+	cancel()
+}
+
 func unreadAcksBackpressure(c *ctx) {
 	for _, rows := range []int{1, 2} {
 		cfg := bs.DefaultBloomSearchEngineConfig()
